@@ -518,6 +518,8 @@ enum CollectorState {
     InDataset,
     /// The collector has read the pixel data element header.
     InPixelData,
+    /// The collector has read past the pixel data.
+    AfterPixelData,
 }
 
 impl<S, D, R> fmt::Debug for DicomCollector<S, D, R>
@@ -882,6 +884,11 @@ where
     /// use [`read_basic_offset_table`](Self::read_basic_offset_table)
     /// before reading any fragment.
     pub fn read_next_fragment(&mut self, to: &mut Vec<u8>) -> Result<Option<u32>> {
+        if self.state == CollectorState::AfterPixelData {
+            // no more fragments
+            return Ok(None);
+        }
+
         if self.state == CollectorState::Start || self.state == CollectorState::Preamble {
             // read file meta information group
             self.read_file_meta()?;
@@ -953,6 +960,12 @@ where
                 // empty item
                 // (must be accounted for even though it yields no value token)
                 LazyDataToken::ItemStart { len: Length(0) } => return Ok(Some(0)),
+                // an element which comes after the pixel data:
+                // its value is not a fragment
+                LazyDataToken::ElementHeader(_) | LazyDataToken::SequenceStart { .. } => {
+                    self.state = CollectorState::AfterPixelData;
+                    return Ok(None);
+                }
                 _ => {
                     // no-op
                 }
